@@ -1,0 +1,5 @@
+//go:build !verif
+
+package metric
+
+func verifTrace(string, any, string) {}
